@@ -413,6 +413,10 @@ func c10Run(c *Ctx) {
 		c.Res.Nontrivial++
 		c.Outcome(o)
 		n++
+		if n%40 == 0 && len(c.Conform) < 30 && o == "ok" && !b0cyclic(&cs.expCase) {
+			raw, _ := json.Marshal(cs)
+			c.Conform = append(c.Conform, ConformRec{Case: raw, Obs: o})
+		}
 		if n%2000 == 1 {
 			c.Sample(map[string]interface{}{"features": cs.Feat, "calls": cs.Calls, "cache": cs.CacheKind, "alt_root": cs.AltRoot})
 		}
@@ -474,6 +478,10 @@ func c18Run(c *Ctx) {
 		c.Res.Nontrivial++
 		c.Outcome(o)
 		n++
+		if n%200 == 0 && len(c.Conform) < 30 && o == "ok" && !cs.Differential && !b0cyclic(&cs.expCase) {
+			raw, _ := json.Marshal(cs)
+			c.Conform = append(c.Conform, ConformRec{Case: raw, Obs: o})
+		}
 		if n%2000 == 1 {
 			c.Sample(map[string]interface{}{"features": cs.Feat, "calls": cs.Calls, "cache": cs.CacheKind, "preload": cs.Preload})
 		}
